@@ -42,6 +42,8 @@ X64 = {
     "icall": dict(b="ffd0", kind="icall", asm="callq *%rax"),
     "ud2": dict(b="0f0b", kind="halt", asm="ud2"),
     "hlt": dict(b="f4", kind="halt", asm="hlt"),
+    # system call: a Syscall edge to an unknown target plus a fallthrough
+    "syscall": dict(b="0f05", kind="syscall", asm="syscall", patch=False),
     # symbolic memory operand FOLLOWED by an immediate: the fixup is not the
     # last field of the encoding
     "cmp_sym": dict(b="833d0000000005", kind="ord", sym=(2, 4),
@@ -126,6 +128,8 @@ ARM64 = {
     "ijmp": dict(b=_w(0xD61F0000), kind="ijmp", asm="br x0"),
     "icall": dict(b=_w(0xD63F0000), kind="icall", asm="blr x0"),
     "ud2": dict(b=_w(0xD4200000), kind="halt", asm="brk #0"),
+    "syscall": dict(b=_w(0xD4000001), kind="syscall", asm="svc #0",
+                    patch=False),
 }
 
 INTEL = {'nop': 'nop', 'push_rax': 'push rax', 'pop_rax': 'pop rax', 'push_rbx': 'push rbx', 'pop_rbx': 'pop rbx', 'mov_rr': 'mov rbx, rax', 'xor': 'xor eax, eax', 'add': 'add rax, 1', 'lea_sym': 'lea rax, [rip + {t}]', 'mov_sym': 'mov rax, qword ptr [rip + {t}]', 'mark': 'mov eax, {imm}', 'jmp': 'jmp {t}', 'jne': 'jne {t}', 'call': 'call {t}', 'ret': 'ret', 'ijmp': 'jmp rax', 'icall': 'call rax', 'ud2': 'ud2', 'hlt': 'hlt', 'cmp_sym': 'cmp dword ptr [rip + {t}], 5', 'movi_sym': 'mov dword ptr [rip + {t}], 7'}
